@@ -73,7 +73,23 @@ def loop_as_comprehension(fn, lst):
     if len(inits) != 1 or not (isinstance(inits[0].value, ast.List) and not inits[0].value.elts) or len(loops) != 1:
         return None
 
+    def block_value(stmts, res):
+        """the value an expanded helper body leaves in `res`, as a conditional expression; None if it does more than choose a value"""
+        stmts = [x for x in stmts if type(x).__name__ != 'InlineExit']
+        if len(stmts) == 1 and isinstance(stmts[0], ast.Assign) and len(stmts[0].targets) == 1 and ast.unparse(stmts[0].targets[0]) == res:
+            return stmts[0].value
+        if stmts and isinstance(stmts[0], ast.If):
+            a = block_value(stmts[0].body, res)
+            b = block_value(stmts[0].orelse if stmts[0].orelse else stmts[1:], res)
+            if a is not None and b is not None and (not stmts[0].orelse or len(stmts) == 1):
+                return ast.IfExp(test=stmts[0].test, body=a, orelse=b)
+        return None
+
     def elt(body):
+        if len(body) == 2 and type(body[0]).__name__ == 'InlineBlock' and isinstance(body[1], ast.Expr) and isinstance(body[1].value, ast.Call) \
+                and callee_attr(body[1].value) == 'append' and ast.unparse(body[1].value.func.value) == lst and len(body[1].value.args) == 1 \
+                and isinstance(body[1].value.args[0], ast.Name):
+            return block_value(body[0].body, body[1].value.args[0].id)
         if len(body) == 1 and isinstance(body[0], ast.Expr) and isinstance(body[0].value, ast.Call) and callee_attr(body[0].value) == 'append' \
                 and ast.unparse(body[0].value.func.value) == lst and len(body[0].value.args) == 1:
             return body[0].value.args[0]
